@@ -27,6 +27,7 @@ VarNames == {"a", "b", "n", "m", "c"}
 LabelMenu(L) == {IxAll, IxSc(L[Len(L)]), IxSc(L[1] + 1), IxLi(Rev(L)), IxLi(<<L[1]>>), IxLi(<<>>), IxLi(<<L[1], L[1]>>),
                  IxMk([i \in 1..Len(L) |-> i # 1 \/ Len(L) = 1]), IxSl(<<L[1]>>, <<L[Len(L)]>>, <<>>), IxSl(<<>>, <<L[1]>>, <<>>)}
 PosMenu(n) == {IxAll, IxSc(n - 1), IxSc(-n), IxSc(n), IxLi([i \in 1..n |-> n - i]), IxLi(<<0>>), IxLi(<<>>), IxMk([i \in 1..n |-> i # 1 \/ n = 1]),
+               IxLi(<<-1, 0>>), IxLi(IF n >= 2 THEN <<-2, -1>> ELSE <<-1>>), IxLi([i \in 1..n |-> i - 1]),
                IxSl(<<1>>, <<>>, <<>>), IxSl(<<>>, <<-1>>, <<>>), IxSl(<<>>, <<>>, <<-1>>)}
 RECURSIVE IdxTuples(_, _)
 IdxTuples(labs, mode) ==
@@ -85,6 +86,14 @@ Assign2 ==
            r2 == Put(r1.val, i2, "position", <<>>, rhs2)
        IN /\ in' = [NoIn EXCEPT !.fam = "assign", !.v = "a", !.idxs = i1, !.mode = "label", !.rhs = rhs1, !.idxs2 = i2, !.rhs2 = rhs2, !.two = TRUE, !.cfg = a]
           /\ out' = r2
+\* dataset-level reads: one index on one dimension of a file whose two variables list the dims in different orders
+DsRead ==
+  /\ ph = 0 /\ ph' = 1
+  /\ \E d \in 1..2 : \E mode \in {"label", "position"} :
+     \E ix \in (IF mode = "label" THEN LabelMenu(FileVars["a"].labs[d]) ELSE PosMenu(Len(FileVars["a"].labs[d]))) :
+       /\ ix.k # "sc"          \* (a scalar index on the dataset-level handle is outside the property: variables are read one by one there)
+       /\ in' = [NoIn EXCEPT !.fam = "dsread", !.v = "a", !.idxs = <<ix>>, !.mode = mode, !.nd = d, !.cfg = FileVars["a"]]
+       /\ out' = Take(FileVars["a"], [i \in 1..2 |-> IF i = d THEN ix ELSE IxAll], mode, <<>>)
 \* unlimited dimension t: variable u(t) or u(t, x); n0 initial slices, then appended slabs with their labels
 AppendUnl ==
   /\ ph = 0 /\ ph' = 1
@@ -104,7 +113,7 @@ Multi ==
        /\ in' = [NoIn EXCEPT !.fam = "multi", !.cfg = [nf |-> nf, rel |-> rel, axis |-> ax, align |-> al, sort |-> so, keys |-> keys]]
        \* only the x axes differ between files: joining along x itself needs no alignment
        /\ out' = [ok |-> (rel = "equal" \/ al \/ ax = "x"), val |-> <<>>, err |-> IF rel = "equal" \/ al \/ ax = "x" THEN "" ELSE "ValueError"]
-Next == (Read \/ ReadTol \/ Assign \/ AssignTol \/ Assign2 \/ AppendUnl \/ Multi) /\ (Emit => PrintT(ToJson([op |-> "ondisk", in |-> in', out |-> out'])))
+Next == (Read \/ ReadTol \/ DsRead \/ Assign \/ AssignTol \/ Assign2 \/ AppendUnl \/ Multi) /\ (Emit => PrintT(ToJson([op |-> "ondisk", in |-> in', out |-> out'])))
 Spec == Init /\ [][Next]_vars
 Sane == (ph = 1 /\ in.fam \in {"read", "assign"} /\ out.ok) => WellFormed(out.val)
 =============================================================================
